@@ -8,7 +8,7 @@ pub fn def() -> PropDef {
     PropDef {
         id: "C05",
         builds: BOTH,
-        rule: "every text over {L,SP,HY,W,E2,CM,CSI,TAB,OSH (an OSC hyperlink with a hyphen in its URL)}(+NL) up to length N x separator x splitter x break_words x algorithm x 8 indent pairs (empty, 1 column, 2 columns in 3 bytes, ending in a space; both positions) x widths 0..=byte length+indent+2 and the extremes (brackets both the display-width and the byte-length threshold); oracle 1 on every paragraph that fits; oracle 2 = differential of the real shortcut entry points against the real general-path entry points (--cfg fuzzing seam); non-trivial = a paragraph that fits by display width but for which the byte-length shortcut cannot be taken, or a differential evaluated with the shortcut eligible",
+        rule: "every text over {L,SP,HY,W,E2,CM,CSI,TAB,OSH (an OSC hyperlink with a hyphen in its URL)}(+NL) up to length N x separator x splitter x break_words x algorithm x 10 indent pairs (empty, 1 column, 2 columns in 3 bytes, ending in a space, non-empty of zero width; both positions) x widths 0..=byte length+indent+2 and the extremes (brackets both the display-width and the byte-length threshold); oracle 1 on every paragraph that fits; oracle 2 = differential of the real shortcut entry points against the real general-path entry points (--cfg fuzzing seam); non-trivial = a paragraph that fits by display width but for which the byte-length shortcut cannot be taken, or a differential evaluated with the shortcut eligible",
         assumptions: BASE_ASSUMPTIONS,
         floor: |t| t.pick(100_000, 300_000),
         run,
@@ -17,7 +17,7 @@ pub fn def() -> PropDef {
 
 fn gamma(crlf: bool) -> Gamma {
     // empty / one column / two columns (3 bytes) / ending in a space, in both positions
-    let indents = vec![("", ""), (">", ""), ("", ">"), ("\u{4f60}", ">"), (">", "\u{4f60}"), ("> ", ""), ("", "> "), ("> ", "\u{4f60}")];
+    let indents = vec![("", ""), (">", ""), ("", ">"), ("\u{4f60}", ">"), (">", "\u{4f60}"), ("> ", ""), ("", "> "), ("> ", "\u{4f60}"), ("\x1b[1m", ""), ("", "\x1b[1m")];
     Gamma { seps: seps(), algs: algs_default(), spls: vec![Spl::None, Spl::Hyphen], bws: vec![true, false], indents, crlf: if crlf { vec![false, true] } else { vec![false] } }
 }
 
@@ -81,5 +81,6 @@ fn run(r: &mut Run) -> Result<(), MachineryError> {
     text_space(r, "C05/fits(paragraphs)", &a2, t.pick(4, 5), &gamma(true), M_C05, WidthMode::Bytes, 3)?;
     differential(r, "C05/differential", &a1, t.pick(4, 5))?;
     differential(r, "C05/differential(paragraphs)", &a2, t.pick(3, 5))?;
+    escape_scan_space(r, "C05/escape-grammar-scan", M_C05, algs_default())?;
     Ok(())
 }
